@@ -23,6 +23,8 @@ mod c20;
 #[global_allocator]
 static GLOBAL: c04::Counting = c04::Counting;
 
+static LAST_PANIC: std::sync::Mutex<String> = std::sync::Mutex::new(String::new());
+
 fn main() {
     let a: Vec<String> = std::env::args().collect();
     if a.len() < 5 {
@@ -30,10 +32,16 @@ fn main() {
         std::process::exit(2);
     }
     let (prop, tier, seed, dir) = (a[1].as_str(), a[2].as_str(), a[3].parse::<u64>().unwrap_or(0), a[4].as_str());
-    std::panic::set_hook(Box::new(|_| {}));
+    // panics are caught by `guard` around each call into the crate; the hook only remembers the last message and place,
+    // so that a panic escaping a guard is still reported with where it happened
+    std::panic::set_hook(Box::new(|info| {
+        let loc = info.location().map(|l| format!("{}:{}", l.file(), l.line())).unwrap_or_default();
+        let msg = info.payload().downcast_ref::<&str>().map(|s| s.to_string()).or_else(|| info.payload().downcast_ref::<String>().cloned()).unwrap_or_default();
+        if let Ok(mut g) = LAST_PANIC.try_lock() { *g = format!("{} at {}", msg, loc); }
+    }));
     sodium::init();
     let mut out = common::Out::new(dir);
-    match prop {
+    let res = std::panic::catch_unwind(std::panic::AssertUnwindSafe(|| match prop {
         "C12" => c12::run(&mut out, tier, seed),
         "C09" => c09::run(&mut out, tier, seed),
         "C18" => c18::run(&mut out, tier, seed),
@@ -59,6 +67,11 @@ fn main() {
         #[cfg(feature = "nightly")]
         "C20" => c20::run(&mut out, tier, seed),
         _ => { eprintln!("unknown property {}", prop); std::process::exit(2); }
+    }));
+    if res.is_err() {
+        let what = LAST_PANIC.lock().map(|g| g.clone()).unwrap_or_default();
+        let in_crate = what.contains("/repo/src/") || what.contains("dryoc");
+        out.hit(if in_crate { "crate.panics-in-a-call-the-harness-did-not-expect-to-panic" } else { "harness.panicked" }, what.clone(), serde_json::json!({"op":"harness.run","property":prop,"tier":tier,"seed":seed,"panic":what}));
     }
     out.finish(prop, tier, seed);
 }
